@@ -181,3 +181,100 @@ mod tests {
         }
     }
 }
+
+/// One-cube manifolds: a cube whose opposite faces are glued by the
+/// translation composed with a rotation by t[a] * 90 degrees about axis a.
+/// All members share the chamber numbering of the cube boundary (ops 0, 1, 2
+/// are identical), only op 3 differs - the family on which a memo table with
+/// a key that ignores the face gluing would collide. Callers keep the members
+/// that pass dsx::manifold_check (3-torus for t = [0,0,0], the half- and
+/// quarter-turn manifolds, the quaternionic space, ...).
+pub fn cube_manifold(t: [usize; 3]) -> Sym {
+    // flag = (axis a of the face, side s, vertex coordinates (x0,x1,x2) with x[a] = s, direction d != a of the edge)
+    let mut flags: Vec<(usize, usize, [usize; 3], usize)> = vec![];
+    for a in 0..3 {
+        for s in 0..2 {
+            for u in 0..2 {
+                for w in 0..2 {
+                    let (b, c) = ((a + 1) % 3, (a + 2) % 3);
+                    let mut v = [0usize; 3];
+                    v[a] = s;
+                    v[b] = u;
+                    v[c] = w;
+                    for d in [b, c] {
+                        flags.push((a, s, v, d));
+                    }
+                }
+            }
+        }
+    }
+    let index = |f: &(usize, usize, [usize; 3], usize)| -> usize { flags.iter().position(|g| g == f).unwrap() + 1 };
+    let n = flags.len();
+    let mut op = vec![vec![0usize; n + 1]; 4];
+    for (k, &(a, s, v, d)) in flags.iter().enumerate() {
+        let other = 3 - a - d; // the third axis
+        // op 0: other end of the edge
+        let mut v0 = v;
+        v0[d] = 1 - v0[d];
+        op[0][k + 1] = index(&(a, s, v0, d));
+        // op 1: other edge of the face at this vertex
+        op[1][k + 1] = index(&(a, s, v, other));
+        // op 2: other face at this edge
+        op[2][k + 1] = index(&(other, v[other], v, d));
+        // op 3: partner face (a, 1 - s); side 0 -> 1 by rot^t, side 1 -> 0 by its inverse
+        let (b, c) = ((a + 1) % 3, (a + 2) % 3);
+        let turns = if s == 0 { t[a] % 4 } else { (4 - t[a] % 4) % 4 };
+        let (mut u, mut w) = (v[b], v[c]);
+        let mut dir = d;
+        for _ in 0..turns {
+            // rotation by 90 degrees about axis a: (u, w) -> (1 - w, u), axes b and c swap
+            let (nu, nw) = (1 - w, u);
+            u = nu;
+            w = nw;
+            dir = if dir == b { c } else { b };
+        }
+        let mut v3 = [0usize; 3];
+        v3[a] = 1 - s;
+        v3[b] = u;
+        v3[c] = w;
+        op[3][k + 1] = index(&(a, 1 - s, v3, dir));
+    }
+    let mut vv = vec![vec![1usize; n + 1]; 3];
+    for row in vv.iter_mut() {
+        row[0] = 0;
+    }
+    Sym { n, dim: 3, op, v: vv }
+}
+
+#[cfg(test)]
+mod cube_tests {
+    use super::*;
+    use crate::dsx::manifold_check;
+    use crate::homology::h1;
+
+    #[test]
+    fn one_cube_family() {
+        let torus = cube_manifold([0, 0, 0]);
+        torus.validate().unwrap();
+        manifold_check(&torus).unwrap();
+        assert_eq!(h1(&torus).unwrap(), vec![0, 0, 0]);
+        let mut manifolds = 0;
+        for a in 0..4 {
+            for b in 0..4 {
+                for c in 0..4 {
+                    let m = cube_manifold([a, b, c]);
+                    assert_eq!(m.op[0], torus.op[0]);
+                    assert_eq!(m.op[2], torus.op[2]);
+                    if m.validate().is_ok() && manifold_check(&m).is_ok() {
+                        manifolds += 1;
+                    }
+                }
+            }
+        }
+        assert!(manifolds >= 4, "only {} one-cube manifolds", manifolds);
+        // the quaternionic space
+        let q8 = cube_manifold([1, 1, 1]);
+        manifold_check(&q8).unwrap();
+        assert_eq!(h1(&q8).unwrap(), vec![2, 2]);
+    }
+}
